@@ -72,8 +72,16 @@ def outcome(res):
     if kind == 'ok':
         return ('ok', v)
     if kind == 'error':
-        cause = v.__cause__
-        return ('error', type(v).__name__, str(v), type(cause).__name__ if cause is not None else None)
+        # everything a user sees when the error is reported: type, text, the chain of causes and the library frames of the traceback
+        # (api_entry shortens the traceback and re-raises from the original cause - per thread)
+        import traceback
+        chain, e, seen = [], v, set()
+        while e is not None and id(e) not in seen and len(chain) < 6:
+            seen.add(id(e))
+            frames = tuple((os.path.basename(fr.filename), fr.name) for fr in traceback.extract_tb(e.__traceback__) if 'awesomeyaml' in fr.filename)
+            chain.append((type(e).__name__, frames))
+            e = e.__cause__
+        return ('error', type(v).__name__, str(v), tuple(chain))
     return (kind, None)
 
 
